@@ -26,22 +26,23 @@ statement: decl
             | "opaque" ID "(" ")" idlist ";"
             | "opaque" ID "(" idlist ")" idlist ";"
             | qop
-            | "if" "(" ID "==" NNINTEGER ")" qop
+            | ifstmt
             | barrier
             | incstmt
+ifstmt: "if" "(" ID "==" NNINTEGER ")" qop
 incstmt: "include" ESCAPED_STRING ";"
 decl: qreg | creg
 creg: "creg" ID "[" NNINTEGER "]" ";"
 qreg: "qreg" ID "[" NNINTEGER "]" ";"
 barrier: "barrier" anylist ";"
-barrierp: "barrier" anylist ";"
+barrierp: "barrier" idlist ";"
 gatedecl: "gate" ID idlist "{"
             | "gate" ID "(" ")" idlist "{"
             | "gate" ID "(" idlist ")" idlist "{"
 goplist: uopp
-            | "barrierp" idlist ";"
+            | barrierp
             | goplist uopp
-            | goplist "barrier" idlist ";"
+            | goplist barrierp
 qop: uop
         | measure
         | reset
